@@ -158,7 +158,35 @@ def snapshot(die):
             "fixed": [fr.rect_obs(r) for r in die.fixed_regions]}
 
 
+class Hang(Exception):
+    pass
+
+
+def _alarm(signum, frame):
+    raise Hang()
+
+
+HANG_BUDGET = [4]     # calls that may be waited for; afterwards the remaining cases are skipped
+
+
 def run_impl(case):
+    """A call that does not return within 10 s is reported as such (refinement must terminate)."""
+    import signal
+    if HANG_BUDGET[0] <= 0:
+        return {"status": "die-rejected", "why": "skipped: several earlier calls did not return"}
+    old = signal.signal(signal.SIGALRM, _alarm)
+    signal.alarm(10)
+    try:
+        return run_impl_(case)
+    except Hang:
+        HANG_BUDGET[0] -= 1
+        return {"status": "hang"}
+    finally:
+        signal.alarm(0)
+        signal.signal(signal.SIGALRM, old)
+
+
+def run_impl_(case):
     from frame.geometry.geometry import Rectangle, split_rectangles
     Rectangle.undefine_epsilon()
     try:
@@ -215,6 +243,8 @@ def to_coq(case, obs):
     st = obs["status"]
     if st == "die-rejected":
         return "true"
+    if st == "hang":
+        return "false"
     if case["kind"] == "raw":
         RS, r, n = grects(case["rects"]), gq(case["r"]), gz(case["n"])
         if st != "ok":
@@ -296,6 +326,8 @@ def oracle(case, obs):
     st = obs["status"]
     if st == "die-rejected":
         return None
+    if st == "hang":
+        return "the call did not return within 10 s"
     if case["kind"] == "raw":
         rects = case["rects"]
         ok_in = all(core.frac(d["w"]) > 0 and core.frac(d["h"]) > 0 for d in rects)
@@ -408,7 +440,7 @@ def nontrivial(case):
 
 
 def run(ctx, out, replay=None):
-    n = 800 if ctx.quick() else 16000
+    n = 800 if ctx.quick() else 8000
     out.rule = ("real Die objects from generated descriptions (0-4 disjoint lattice-aligned blockages / specialised regions / "
                 "fixed rectangles on small, elongated and large dyadic dies), limits 1.42 1.5 1.7 2 3 10 (+ edge values around the "
                 "assert), n in 1..64 (+ non-positive), grids 1..8 x 1..8 (+ refused shapes, non-empty dies), direct calls of "
@@ -421,3 +453,29 @@ def run(ctx, out, replay=None):
         cases.append(gen_case(ctx.rng))
     fr.run_cases(ctx, out, cases, run_impl, to_coq, oracle, failure_key, HEADER,
                  dist_key=dist_key, nontrivial=nontrivial, shard=70, shrink=shrink)
+    greedy_evidence(ctx, out, cases[:160 if ctx.quick() else 1500])
+
+
+def greedy_evidence(ctx, out, cases):
+    """Evidence only (not part of the verdict): on how many cases phase 2 ran, and how often the
+    implementation's list is, up to order, the one the model's own algorithm computes."""
+    exprs = []
+    for case in cases:
+        if case["kind"] == "grid":
+            continue
+        obs = run_impl(case)
+        if obs["status"] != "ok":
+            continue
+        if case["kind"] == "raw":
+            RS, OUT = grects(case["rects"]), grects(obs["out"])
+        else:
+            RS = grects(obs["before"]["spec"] + obs["before"]["ground"])
+            OUT = grects(obs["after"]["spec"] + obs["after"]["ground"])
+        r, n = gq(case["r"]), gz(case["n"])
+        exprs += [f"phase2_ran {RS} {r} {n}", f"equals_greedy {RS} {r} {n} {OUT}"]
+    res = core.coq_eval_bools(ctx, HEADER, exprs, shard=80, tag="greedy")
+    ran = [i for i in range(0, len(res), 2) if res[i] is True]
+    out.extra["phase2_sample"] = {"cases": len(res) // 2, "phase2_ran": len(ran),
+                                  "equal_to_model_greedy_when_ran": sum(1 for i in ran if res[i + 1] is True),
+                                  "equal_to_model_when_not_ran": sum(1 for i in range(0, len(res), 2)
+                                                                     if res[i] is False and res[i + 1] is True)}
